@@ -23,6 +23,7 @@ import (
 	"github.com/alibaba/sentinel-golang/core/base"
 	"github.com/alibaba/sentinel-golang/logging"
 	"github.com/alibaba/sentinel-golang/util"
+	"github.com/alibaba/sentinel-golang/util/verifhook"
 	"github.com/pkg/errors"
 )
 
@@ -191,6 +192,7 @@ func (la *LeapArray) currentBucketOfTime(now uint64, bg BucketGenerator) (*Bucke
 	bucketStart := calculateStartTime(now, la.bucketLengthInMs)
 
 	for { //spin to get the current BucketWrap
+		verifhook.Yield("la.cur.load")
 		old := la.array.get(idx)
 		if old == nil {
 			// because la.array.data had initiated when new la.array
@@ -203,6 +205,7 @@ func (la *LeapArray) currentBucketOfTime(now uint64, bg BucketGenerator) (*Bucke
 			if la.array.compareAndSet(idx, nil, newWrap) {
 				return newWrap, nil
 			} else {
+				verifhook.Yield("la.cur.spin")
 				runtime.Gosched()
 			}
 		} else if bucketStart == atomic.LoadUint64(&old.BucketStart) {
@@ -210,11 +213,14 @@ func (la *LeapArray) currentBucketOfTime(now uint64, bg BucketGenerator) (*Bucke
 		} else if bucketStart > atomic.LoadUint64(&old.BucketStart) {
 			// current time has been next cycle of LeapArray and LeapArray dont't count in last cycle.
 			// reset BucketWrap
+			verifhook.Yield("la.cur.trylock")
 			if la.updateLock.TryLock() {
 				old = bg.ResetBucketTo(old, bucketStart)
+				verifhook.Yield("la.cur.unlock")
 				la.updateLock.Unlock()
 				return old, nil
 			} else {
+				verifhook.Yield("la.cur.spin")
 				runtime.Gosched()
 			}
 		} else if bucketStart < atomic.LoadUint64(&old.BucketStart) {
@@ -245,6 +251,7 @@ func (la *LeapArray) valuesWithTime(now uint64) []*BucketWrap {
 	}
 	ret := make([]*BucketWrap, 0, la.array.length)
 	for i := 0; i < la.array.length; i++ {
+		verifhook.Yield("la.values.get")
 		ww := la.array.get(i)
 		if ww == nil || la.isBucketDeprecated(now, ww) {
 			continue
@@ -262,6 +269,7 @@ func (la *LeapArray) ValuesConditional(now uint64, predicate base.TimePredicate)
 	}
 	ret := make([]*BucketWrap, 0, la.array.length)
 	for i := 0; i < la.array.length; i++ {
+		verifhook.Yield("la.values.get")
 		ww := la.array.get(i)
 		if ww == nil || la.isBucketDeprecated(now, ww) || !predicate(atomic.LoadUint64(&ww.BucketStart)) {
 			continue
@@ -273,6 +281,7 @@ func (la *LeapArray) ValuesConditional(now uint64, predicate base.TimePredicate)
 
 // isBucketDeprecated checks whether the BucketWrap is expired, according to given timestamp.
 func (la *LeapArray) isBucketDeprecated(now uint64, ww *BucketWrap) bool {
+	verifhook.Yield("la.deprecated.load")
 	ws := atomic.LoadUint64(&ww.BucketStart)
 	return (now - ws) > uint64(la.intervalInMs)
 }
